@@ -33,22 +33,21 @@ import (
 
 func main() { Main("c06", runC06) }
 
-
 const hour = 3600
 
 // ---------- case description ----------
 
 type tokDesc struct {
-	Kind     string `json:"kind"`          // none garbage trunc ctype badinfo ok
-	Msg      string `json:"message"`       // sig other version hashalg
-	GenH     int    `json:"gen_hours"`     // genTime, hours from now
-	Acc      int    `json:"acc_seconds"`   // accuracy
-	Baseline bool   `json:"baseline_oid"`  // baseline policy OID (zero accuracy = 1 s)
-	PKI      string `json:"tsa"`           // which in-harness TSA issues it
-	BadSig   bool   `json:"corrupt_sig"`   // CMS signature damaged
-	RevErr   bool   `json:"rev_error"`     // timestamping revocation validator errors
-	Rev      []int  `json:"rev_vector"`    // its result vector otherwise (nil = all OK)
-	RevShort int    `json:"rev_shorter"`   // drop this many results from the end
+	Kind     string `json:"kind"`         // none garbage trunc ctype badinfo ok
+	Msg      string `json:"message"`      // sig other version hashalg
+	GenH     int    `json:"gen_hours"`    // genTime, hours from now
+	Acc      int    `json:"acc_seconds"`  // accuracy
+	Baseline bool   `json:"baseline_oid"` // baseline policy OID (zero accuracy = 1 s)
+	PKI      string `json:"tsa"`          // which in-harness TSA issues it
+	BadSig   bool   `json:"corrupt_sig"`  // CMS signature damaged
+	RevErr   bool   `json:"rev_error"`    // timestamping revocation validator errors
+	Rev      []int  `json:"rev_vector"`   // its result vector otherwise (nil = all OK)
+	RevShort int    `json:"rev_shorter"`  // drop this many results from the end
 	facts    string // Gallina term of the oracle facts
 	Facts    string `json:"oracle_facts"`
 }
@@ -66,6 +65,10 @@ type c06Case struct {
 	AExp   string   `json:"action_expiry"`
 	ATs    string   `json:"action_authentic_timestamp"`
 	Tok    tokDesc  `json:"countersignature"`
+	Anchor int      `json:"trust_anchor"` // certificate of the signing chain held by the scheme's store: 0 root, 1 middle, 2 leaf
+	Dyn    string   `json:"dyn_store"`    // history only: what the tsa store "dyn" holds at this call: a, b, empty, fail
+	Hist   string   `json:"history"`      // history only: "<sequence>#<step>" — same verifier instance as the previous steps
+	sess   *session
 	// observation
 	ObsExpiry string `json:"obs_expiry"`
 	ObsTs     string `json:"obs_authentic_timestamp"`
@@ -134,9 +137,58 @@ func newTSAWorld(t0 time.Time) *tsaWorld {
 	rk := mintTSA(tsaCertSpec{CN: "tsa K root", NotBefore: far1, NotAfter: far2, CA: true, KeyUsage: x509.KeyUsageDigitalSignature}, nil)
 	w.pkis["k"] = &pki{leaf: mintTSA(leafSpec("tsa K leaf"), rk), extra: []*x509.Certificate{rk.C}}
 	w.stores["k"] = []*x509.Certificate{rk.C}
+	w.stores["T.s_A-1"] = []*x509.Certificate{ra.C} // a store name using every character class the policy allows
 	w.stores["empty"] = nil
 	w.fail["fail"] = true
 	return w
+}
+
+// ---------- a verifier instance shared by the steps of a history ----------
+
+type session struct {
+	store     *MockStore
+	rv        *tsRev
+	v         notation.Verifier
+	lastToken []byte
+}
+
+func anchorIndex(n, anchor int) int {
+	switch anchor {
+	case 1:
+		return n / 2
+	case 2:
+		return 0
+	}
+	return n - 1
+}
+
+func newStore(world *tsaWorld) *MockStore {
+	store := NewMockStore()
+	for name, certs := range world.stores {
+		store.Put(truststore.TypeTSA, name, certs...)
+	}
+	for name := range world.fail {
+		store.Fail[StoreKey{Type: truststore.TypeTSA, Name: name}] = true
+	}
+	return store
+}
+
+func newVerifier(c *c06Case, store *MockStore, rv *tsRev) notation.Verifier {
+	natural := map[string]string{"strict": "Enforce", "permissive": "Log", "audit": "Log"}[c.Level]
+	override := map[trustpolicy.ValidationType]trustpolicy.ValidationAction{trustpolicy.TypeRevocation: trustpolicy.ActionSkip}
+	act := map[string]trustpolicy.ValidationAction{"Enforce": trustpolicy.ActionEnforce, "Log": trustpolicy.ActionLog}
+	if c.AExp != natural {
+		override[trustpolicy.TypeExpiry] = act[c.AExp]
+	}
+	if c.ATs != natural {
+		override[trustpolicy.TypeAuthenticTimestamp] = act[c.ATs]
+	}
+	doc := OCIPolicy(c.Level, override, c.Stores, []string{"*"}, trustpolicy.TimestampOption(c.Opt))
+	v, err := verifier.NewVerifierWithOptions(store, verifier.VerifierOptions{OCITrustPolicy: doc, RevocationTimestampingValidator: rv})
+	if err != nil {
+		panic(fmt.Sprintf("c06: verifier construction: %v", err))
+	}
+	return v
 }
 
 // ---------- envelope surgery ----------
@@ -323,7 +375,7 @@ func (r *tsRev) vector(n int) []int {
 	for len(vec) < n {
 		vec = append(vec, 0)
 	}
-	if r.short > 0 && r.short < len(vec) {
+	if r.short > 0 && r.short <= len(vec) {
 		vec = vec[:len(vec)-r.short]
 	}
 	return vec
@@ -358,7 +410,7 @@ func runC06(a *Args) error {
 	rng := NewRng(a.Seed)
 	prelude := "From NV Require Import Base C06_Model.\nOpen Scope string_scope.\n"
 	w := NewCaseWriter(a, "C06", prelude, "case", "run")
-	w.Rule = "signing chains of 1..4 certificates minted per case with one validity window per certificate, signing time and expiry placed hours before / after the moment of verification, both schemes and envelope formats, policies whose trustStores list none / one / several / duplicated / empty / failing tsa stores in varying positions x verifyTimestamp {unset, always, afterCertExpiry} x actions of expiry and authenticTimestamp {enforce, log}; countersignatures from an in-harness RFC 3161 TSA: absent, unparsable, wrong content type, bad TSTInfo, over another message / wrong version / unknown hash, from an untrusted root, with a damaged signature, from TSA certificates that are expired at genTime / lack the critical timeStamping EKU / are mis-purposed / chain to a non-self-signed anchor, with genTime +- accuracy inside, on the edge of and outside each certificate window, and every revocation verdict of the timestamping validator. Families: each rule of the property violated by its own edit of an otherwise valid case, plus a random mixture. non-trivial = some validation does not simply pass on an all-valid input (a failure, an expired-now chain saved by the timestamp or by the signing time, a boundary, a non-default policy); distinct = distinct (windows, times, stores, option, actions, scheme, format, token description) tuples"
+	w.Rule = "signing chains of 1..4 certificates minted per case with one validity window per certificate, signing time and expiry placed hours before / after the moment of verification, both schemes and envelope formats, policies whose trustStores list none / one / several / duplicated / empty / failing tsa stores in varying positions x verifyTimestamp {unset, always, afterCertExpiry} x actions of expiry and authenticTimestamp {enforce, log}; countersignatures from an in-harness RFC 3161 TSA: absent, unparsable, wrong content type, bad TSTInfo, over another message / wrong version / unknown hash, from an untrusted root, with a damaged signature, from TSA certificates that are expired at genTime / lack the critical timeStamping EKU / are mis-purposed / chain to a non-self-signed anchor, with genTime +- accuracy inside, on the edge of and outside each certificate window, and every revocation verdict of the timestamping validator. Families: each rule of the property violated by its own edit of an otherwise valid case (the edited certificate at every chain position, for each of the three clocks: now, authentic signing time, timestamp); windows nested leaf-innermost and root-innermost with the clock in every gap; the odd tsa store and the scheme's own store at every position of the trustStores list; the trust anchor held by the store at root / middle / leaf; zero-length vs absent countersignature; histories (ONE verifier instance, 5-6 calls whose expected verdict changes, the tsa store content changing between calls, a genuine token replayed on another envelope); plus a random mixture. non-trivial = some validation does not simply pass on an all-valid input (a failure, an expired-now chain saved by the timestamp or by the signing time, a boundary, a non-default policy); distinct = distinct (windows, times, stores, option, actions, scheme, format, token description) tuples"
 	w.Assumptions = []string{
 		"the implementation reads the wall clock: every time compared with 'now' is at least one hour away from it, so the equality boundaries now = expiry / notBefore / notAfter are proved on the model only; boundaries that do not involve 'now' (signing time or timestamp range equal to a certificate bound) are driven on the code",
 		"oracle facts about the countersignature (parse, TSTInfo, imprint, genTime/accuracy, chain under the tsa stores' certificates at genTime, timestamping-certificate rules) are asked from tspclient-go, crypto/x509 and notation-core-go on the very bytes the verifier receives",
@@ -372,12 +424,10 @@ func runC06(a *Args) error {
 	payload := PayloadFor(desc)
 
 	var id int64
-	runCase := func(c *c06Case) {
-		my := id
-		id++
-		if !w.Want(my) {
-			return
-		}
+	// prepare mints the chain, signs, attaches the countersignature and puts the trust anchor into the store;
+	// the returned function performs the call on the verifier and emits the case
+	prepare := func(c *c06Case, my int64) func() {
+		emit := w.Want(my)
 		base := time.Now().Truncate(time.Second)
 		at := func(h int) time.Time { return base.Add(time.Duration(h) * time.Hour) }
 		n := len(c.Win)
@@ -431,7 +481,15 @@ func runC06(a *Args) error {
 		}
 		// --- countersignature
 		var token []byte
-		if c.Tok.Kind != "none" {
+		switch c.Tok.Kind {
+		case "empty": // the header is there, with a zero-length value
+			token = []byte{}
+		case "replayed": // a genuine token, issued for the signature of the previous envelope of the history
+			if c.sess != nil {
+				token = c.sess.lastToken
+			}
+		}
+		if c.Tok.Kind != "none" && c.Tok.Kind != "empty" && c.Tok.Kind != "replayed" {
 			p := world.pkis[c.Tok.PKI]
 			ts := tokenSpec{Message: content.SignerInfo.Signature, GenTime: at(c.Tok.GenH), AccSeconds: c.Tok.Acc, Baseline: c.Tok.Baseline,
 				Version: 1, Leaf: p.leaf, Extra: p.extra, CorruptSig: c.Tok.BadSig}
@@ -466,185 +524,246 @@ func runC06(a *Args) error {
 			panic(fmt.Sprintf("c06: final envelope does not verify: %v", err))
 		}
 		si := content.SignerInfo
-		// --- trust store
-		store := NewMockStore()
-		rootCert := narrow[n-1].C
-		store.Put(truststore.TypeCA, "s", rootCert)
-		store.Put(truststore.TypeSigningAuthority, "s", rootCert)
-		for name, certs := range world.stores {
-			store.Put(truststore.TypeTSA, name, certs...)
-		}
-		for name := range world.fail {
-			store.Fail[StoreKey{Type: truststore.TypeTSA, Name: name}] = true
-		}
-		// what the trust store answers for every tsa store the policy lists (asked from the store itself)
-		var dbTerms []string
-		var roots []*x509.Certificate
-		loadOK := true
-		seenName := map[string]bool{}
-		for _, s := range c.Stores {
-			ty, name, _ := strings.Cut(s, ":")
-			if ty != "tsa" || seenName[name] {
-				continue
+		// --- trust store (fresh per case, or the one of the history's verifier)
+		var store *MockStore
+		if c.sess != nil {
+			if c.sess.store == nil {
+				c.sess.store = newStore(world)
 			}
-			seenName[name] = true
-			certs, err := store.GetCertificates(context.Background(), truststore.TypeTSA, name)
-			switch {
-			case err != nil:
-				dbTerms = append(dbTerms, CPair(CStr(name), "SErr"))
-				loadOK = false
-			case len(certs) == 0:
-				dbTerms = append(dbTerms, CPair(CStr(name), "SEmpty"))
-			default:
-				dbTerms = append(dbTerms, CPair(CStr(name), "SCerts"))
-				roots = append(roots, certs...)
+			store = c.sess.store
+			c.sess.lastToken = nil
+			if c.Tok.Kind == "ok" {
+				c.sess.lastToken = token
 			}
-		}
-		store.Calls = nil
-		if !loadOK {
-			roots = nil
-		}
-		facts := askTSA(si.UnsignedAttributes.TimestampSignature, si.Signature, roots)
-		// --- revocation validator for the TSA chain: one result per certificate of the chain it is asked about
-		tsaLen := len(facts.chain)
-		if tsaLen == 0 {
-			tsaLen = 2
-		}
-		rv := &tsRev{vec: c.Tok.Rev, short: c.Tok.RevShort}
-		var revTerm string
-		if c.Tok.RevErr {
-			rv.err = errors.New("mock timestamping revocation failure")
-			revTerm = "VErr"
 		} else {
-			vec := rv.vector(tsaLen)
-			items := make([]string, len(vec))
-			for i, k := range vec {
-				items[i] = c06ResNames[k]
+			store = newStore(world)
+		}
+		anchorCert := narrow[anchorIndex(n, c.Anchor)].C
+		store.Put(truststore.TypeCA, "s", anchorCert)
+		store.Put(truststore.TypeSigningAuthority, "s", anchorCert)
+		return func() {
+			if c.Dyn != "" {
+				k := StoreKey{Type: truststore.TypeTSA, Name: "dyn"}
+				delete(store.Fail, k)
+				switch c.Dyn {
+				case "fail":
+					store.Fail[k] = true
+				case "empty":
+					store.Certs[k] = nil
+				default:
+					store.Certs[k] = world.stores[c.Dyn]
+				}
 			}
-			revTerm = CApp("VRes", CList(items))
+			// what the trust store answers for every tsa store the policy lists (asked from the store itself)
+			var dbTerms []string
+			var roots []*x509.Certificate
+			loadOK := true
+			seenName := map[string]bool{}
+			for _, s := range c.Stores {
+				ty, name, _ := strings.Cut(s, ":")
+				if ty != "tsa" || seenName[name] {
+					continue
+				}
+				seenName[name] = true
+				certs, err := store.GetCertificates(context.Background(), truststore.TypeTSA, name)
+				switch {
+				case err != nil:
+					dbTerms = append(dbTerms, CPair(CStr(name), "SErr"))
+					loadOK = false
+				case len(certs) == 0:
+					dbTerms = append(dbTerms, CPair(CStr(name), "SEmpty"))
+				default:
+					dbTerms = append(dbTerms, CPair(CStr(name), "SCerts"))
+					roots = append(roots, certs...)
+				}
+			}
+			store.Calls = nil
+			if !loadOK {
+				roots = nil
+			}
+			facts := askTSA(si.UnsignedAttributes.TimestampSignature, si.Signature, roots)
+			// --- revocation validator for the TSA chain: one result per certificate of the chain it is asked about
+			tsaLen := len(facts.chain)
+			if tsaLen == 0 {
+				tsaLen = 2
+			}
+			rv := &tsRev{}
+			if c.sess != nil {
+				rv = c.sess.rv
+			}
+			rv.vec, rv.short, rv.err, rv.calls, rv.timeSet = c.Tok.Rev, c.Tok.RevShort, nil, nil, false
+			var revTerm string
+			if c.Tok.RevErr {
+				rv.err = errors.New("mock timestamping revocation failure")
+				revTerm = "VErr"
+			} else {
+				vec := rv.vector(tsaLen)
+				items := make([]string, len(vec))
+				for i, k := range vec {
+					items[i] = c06ResNames[k]
+				}
+				revTerm = CApp("VRes", CList(items))
+			}
+			// --- policy and verifier (a history reuses one instance)
+			var v notation.Verifier
+			if c.sess != nil {
+				if c.sess.v == nil {
+					c.sess.v = newVerifier(c, store, rv)
+				}
+				v = c.sess.v
+			} else {
+				v = newVerifier(c, store, rv)
+			}
+			before := time.Now()
+			var outcome *notation.VerificationOutcome
+			var verr2 error
+			panicked := func() (p any) {
+				defer func() { p = recover() }()
+				outcome, verr2 = v.Verify(context.Background(), desc, env, notation.VerifierVerifyOptions{ArtifactReference: TestRef, SignatureMediaType: c.Format})
+				return nil
+			}()
+			after := time.Now()
+			if panicked != nil {
+				c.ObsTs = fmt.Sprintf("PANIC: %v", panicked)
+				if emit {
+					w.ImplViolation(my, "verifier.Verify panicked: "+fmt.Sprint(panicked), c, "")
+				}
+				return
+			}
+			if after.Sub(base) > 20*time.Minute {
+				panic("c06: a case took more than 20 minutes; times are no longer hours away from now")
+			}
+			c.NowS = int64(before.Sub(base) / time.Second)
+			// --- observation
+			if r, _ := FindResult(outcome, trustpolicy.TypeAuthenticity); r == nil || r.Error != nil {
+				// the model's precondition: the chain's anchor is in the scheme's store, so authenticity must pass
+				c.ObsTs = fmt.Sprintf("PRECONDITION: authenticity did not pass: %v / %v", r, verr2)
+				if emit {
+					w.ImplViolation(my, "authenticity failed although the store of the scheme holds a certificate of the chain (state leaking between calls of one verifier, or a harness defect)", c, "")
+				}
+				return
+			}
+			chainSubj := Subjects(si.CertificateChain)
+			tsaSubj := Subjects(facts.chain)
+			expTerm := "None"
+			c.ObsExpiry = "absent"
+			if r, k := FindResult(outcome, trustpolicy.TypeExpiry); r != nil {
+				switch {
+				case k > 1:
+					c.ObsExpiry = "duplicated"
+				case r.Error == nil:
+					c.ObsExpiry, expTerm = "passed", "(Some true)"
+				default:
+					c.ObsExpiry, expTerm = "failed", "(Some false)"
+				}
+			}
+			tsTerm := "None"
+			c.ObsTs = "absent"
+			if r, k := FindResult(outcome, trustpolicy.TypeAuthenticTimestamp); r != nil {
+				switch {
+				case k > 1:
+					c.ObsTs = "duplicated"
+				case r.Error == nil:
+					c.ObsTs, tsTerm = "Passed", "(Some Passed)"
+				default:
+					t, label := classify(r.Error.Error(), chainSubj, tsaSubj)
+					c.ObsTs, tsTerm = label, CSome(CApp("Failed", t))
+				}
+			}
+			c.Rejected = verr2 != nil
+			// the revocation validator must have been asked about the TSA chain the oracle found, and nothing else
+			for _, k := range rv.calls {
+				if strings.Join(Subjects(k), "|") != strings.Join(tsaSubj, "|") && emit {
+					w.ImplViolation(my, "timestamping revocation validator asked about another chain than the TSA chain verified under the policy's tsa stores", c, "")
+				}
+			}
+			if rv.timeSet && emit {
+				w.ImplViolation(my, "timestamping revocation validator called with a signing time", c, "")
+			}
+			if !emit {
+				return
+			}
+			// --- input term
+			certTerms := make([]string, n)
+			for i, x := range si.CertificateChain {
+				certTerms[i] = CApp("mk_cert", CZ(secs(x.NotBefore, base)), CZ(secs(x.NotAfter, base)))
+			}
+			expIn := "None"
+			if !si.SignedAttributes.Expiry.IsZero() {
+				expIn = CSome(CZ(secs(si.SignedAttributes.Expiry, base)))
+			}
+			schemeTerm := "X509"
+			if si.SignedAttributes.SigningScheme != signature.SigningSchemeX509 {
+				schemeTerm = "SigningAuthority"
+			}
+			var gen, acc int64
+			if facts.imprint {
+				gen = secs(facts.gen, base)
+				if facts.acc%time.Second != 0 {
+					panic("c06: accuracy is not a whole number of seconds")
+				}
+				acc = int64(facts.acc / time.Second)
+			}
+			tokTerm := CApp("mk_token", CBool(facts.present), CBool(facts.parses), CBool(facts.info), CBool(facts.imprint),
+				CZ(gen), CZ(acc), CBool(facts.verify), CBool(facts.rules), revTerm)
+			c.Tok.Facts = fmt.Sprintf("present=%v parses=%v info=%v imprint=%v gen=%ds acc=%ds verify=%v rules=%v tsa_chain=%d rev=%s",
+				facts.present, facts.parses, facts.info, facts.imprint, gen, acc, facts.verify, facts.rules, len(facts.chain), revTerm)
+			optTerm := map[string]string{"": "OptUnset", "always": "OptAlways", "afterCertExpiry": "OptAfterCertExpiry"}[c.Opt]
+			in := CApp("mk_input", CZ(c.NowS), schemeTerm, CZ(secs(si.SignedAttributes.SigningTime, base)), expIn,
+				CList(certTerms), CStrList(c.Stores), optTerm, CList(dbTerms), tokTerm, c.AExp, c.ATs)
+			obs := CApp("mk_obs", expTerm, tsTerm, CBool(c.Rejected))
+			term := CApp("mk_case", CN(my), in, obs)
+			key := fmt.Sprintf("%v|%v|%v|%v|%v|%v|%v|%v|%v|%v|%+v|%v|%v|%v", c.Win, c.SigH, c.ExpH, c.Stores, c.Opt, c.AExp, c.ATs, c.SA, c.Format, c.Level, c.Tok, c.Anchor, c.Dyn, c.Hist)
+			nontriv := c.ObsExpiry != "passed" || c.ObsTs != "Passed" || c.Fam != "valid"
+			w.Add(my, term, c, key, nontriv)
+			w.Count("family", c.Fam)
+			w.Count("scheme", schemeTerm)
+			w.Count("chain_len", fmt.Sprint(n))
+			w.Count("verify_timestamp", "opt="+c.Opt)
+			w.Count("obs_expiry", c.ObsExpiry)
+			w.Count("obs_authentic_timestamp", strings.SplitN(c.ObsTs, " ", 2)[0])
+			w.Count("rejected", fmt.Sprint(c.Rejected))
+			w.Count("token_kind", c.Tok.Kind)
+			w.Count("trust_anchor", []string{"root", "middle", "leaf"}[c.Anchor])
+			if c.Hist != "" {
+				w.Count("history_steps", strings.SplitN(c.Hist, "#", 2)[0])
+			}
+			if schemeTerm == "X509" && facts.verify && facts.rules && c.ObsTs == "Passed" && len(roots) > 0 {
+				// the positive countersignature branch is driven on the real code: the mini-TSA's chain is accepted by
+				// tspclient-go, crypto/x509 and notation-core-go's ValidateTimestampingCertChain
+				w.Count("positive_tsa_branch", fmt.Sprintf("passed with a token verified under the tsa stores (TSA chain of %d)", len(facts.chain)))
+			}
 		}
-		// --- policy
-		natural := map[string]string{"strict": "Enforce", "permissive": "Log", "audit": "Log"}[c.Level]
-		override := map[trustpolicy.ValidationType]trustpolicy.ValidationAction{trustpolicy.TypeRevocation: trustpolicy.ActionSkip}
-		act := map[string]trustpolicy.ValidationAction{"Enforce": trustpolicy.ActionEnforce, "Log": trustpolicy.ActionLog}
-		if c.AExp != natural {
-			override[trustpolicy.TypeExpiry] = act[c.AExp]
-		}
-		if c.ATs != natural {
-			override[trustpolicy.TypeAuthenticTimestamp] = act[c.ATs]
-		}
-		doc := OCIPolicy(c.Level, override, c.Stores, []string{"*"}, trustpolicy.TimestampOption(c.Opt))
-		v, err := verifier.NewVerifierWithOptions(store, verifier.VerifierOptions{OCITrustPolicy: doc, RevocationTimestampingValidator: rv})
-		if err != nil {
-			panic(fmt.Sprintf("c06: verifier construction: %v", err))
-		}
-		before := time.Now()
-		var outcome *notation.VerificationOutcome
-		var verr2 error
-		panicked := func() (p any) {
-			defer func() { p = recover() }()
-			outcome, verr2 = v.Verify(context.Background(), desc, env, notation.VerifierVerifyOptions{ArtifactReference: TestRef, SignatureMediaType: c.Format})
-			return nil
-		}()
-		after := time.Now()
-		if panicked != nil {
-			c.ObsTs = fmt.Sprintf("PANIC: %v", panicked)
-			w.ImplViolation(my, "verifier.Verify panicked: "+fmt.Sprint(panicked), c, "")
+	}
+	runCase := func(c *c06Case) {
+		my := id
+		id++
+		if !w.Want(my) {
 			return
 		}
-		if after.Sub(base) > 20*time.Minute {
-			panic("c06: a case took more than 20 minutes; times are no longer hours away from now")
+		prepare(c, my)()
+	}
+	// runSeq runs the steps of a history on one verifier: all envelopes are prepared (and their anchors stored)
+	// first, then the calls are made in order. Replaying one step re-runs the whole history and emits that step.
+	runSeq := func(cs []*c06Case) {
+		first := id
+		id += int64(len(cs))
+		wanted := false
+		for i := range cs {
+			wanted = wanted || w.Want(first+int64(i))
 		}
-		c.NowS = int64(before.Sub(base) / time.Second)
-		// --- observation
-		if r, _ := FindResult(outcome, trustpolicy.TypeAuthenticity); r == nil || r.Error != nil {
-			panic(fmt.Sprintf("c06: authenticity did not pass (harness defect): %v / %v case=%+v chain=%v root=%v", r, verr2, *c, Subjects(si.CertificateChain), rootCert.Subject))
+		if !wanted {
+			return
 		}
-		chainSubj := Subjects(si.CertificateChain)
-		tsaSubj := Subjects(facts.chain)
-		expTerm := "None"
-		c.ObsExpiry = "absent"
-		if r, k := FindResult(outcome, trustpolicy.TypeExpiry); r != nil {
-			switch {
-			case k > 1:
-				c.ObsExpiry = "duplicated"
-			case r.Error == nil:
-				c.ObsExpiry, expTerm = "passed", "(Some true)"
-			default:
-				c.ObsExpiry, expTerm = "failed", "(Some false)"
-			}
+		var calls []func()
+		for i, c := range cs {
+			calls = append(calls, prepare(c, first+int64(i)))
 		}
-		tsTerm := "None"
-		c.ObsTs = "absent"
-		if r, k := FindResult(outcome, trustpolicy.TypeAuthenticTimestamp); r != nil {
-			switch {
-			case k > 1:
-				c.ObsTs = "duplicated"
-			case r.Error == nil:
-				c.ObsTs, tsTerm = "Passed", "(Some Passed)"
-			default:
-				t, label := classify(r.Error.Error(), chainSubj, tsaSubj)
-				c.ObsTs, tsTerm = label, CSome(CApp("Failed", t))
-			}
-		}
-		c.Rejected = verr2 != nil
-		// the revocation validator must have been asked about the TSA chain the oracle found, and nothing else
-		for _, k := range rv.calls {
-			if strings.Join(Subjects(k), "|") != strings.Join(tsaSubj, "|") {
-				w.ImplViolation(my, "timestamping revocation validator asked about another chain than the TSA chain verified under the policy's tsa stores", c, "")
-			}
-		}
-		if rv.timeSet {
-			w.ImplViolation(my, "timestamping revocation validator called with a signing time", c, "")
-		}
-		// --- input term
-		certTerms := make([]string, n)
-		for i, x := range si.CertificateChain {
-			certTerms[i] = CApp("mk_cert", CZ(secs(x.NotBefore, base)), CZ(secs(x.NotAfter, base)))
-		}
-		expIn := "None"
-		if !si.SignedAttributes.Expiry.IsZero() {
-			expIn = CSome(CZ(secs(si.SignedAttributes.Expiry, base)))
-		}
-		schemeTerm := "X509"
-		if si.SignedAttributes.SigningScheme != signature.SigningSchemeX509 {
-			schemeTerm = "SigningAuthority"
-		}
-		var gen, acc int64
-		if facts.imprint {
-			gen = secs(facts.gen, base)
-			if facts.acc%time.Second != 0 {
-				panic("c06: accuracy is not a whole number of seconds")
-			}
-			acc = int64(facts.acc / time.Second)
-		}
-		tokTerm := CApp("mk_token", CBool(facts.present), CBool(facts.parses), CBool(facts.info), CBool(facts.imprint),
-			CZ(gen), CZ(acc), CBool(facts.verify), CBool(facts.rules), revTerm)
-		c.Tok.Facts = fmt.Sprintf("present=%v parses=%v info=%v imprint=%v gen=%ds acc=%ds verify=%v rules=%v tsa_chain=%d rev=%s",
-			facts.present, facts.parses, facts.info, facts.imprint, gen, acc, facts.verify, facts.rules, len(facts.chain), revTerm)
-		optTerm := map[string]string{"": "OptUnset", "always": "OptAlways", "afterCertExpiry": "OptAfterCertExpiry"}[c.Opt]
-		in := CApp("mk_input", CZ(c.NowS), schemeTerm, CZ(secs(si.SignedAttributes.SigningTime, base)), expIn,
-			CList(certTerms), CStrList(c.Stores), optTerm, CList(dbTerms), tokTerm, c.AExp, c.ATs)
-		obs := CApp("mk_obs", expTerm, tsTerm, CBool(c.Rejected))
-		term := CApp("mk_case", CN(my), in, obs)
-		key := fmt.Sprintf("%v|%v|%v|%v|%v|%v|%v|%v|%v|%v|%+v", c.Win, c.SigH, c.ExpH, c.Stores, c.Opt, c.AExp, c.ATs, c.SA, c.Format, c.Level, c.Tok)
-		nontriv := c.ObsExpiry != "passed" || c.ObsTs != "Passed" || c.Fam != "valid"
-		w.Add(my, term, c, key, nontriv)
-		w.Count("family", c.Fam)
-		w.Count("scheme", schemeTerm)
-		w.Count("chain_len", fmt.Sprint(n))
-		w.Count("verify_timestamp", "opt="+c.Opt)
-		w.Count("obs_expiry", c.ObsExpiry)
-		w.Count("obs_authentic_timestamp", strings.SplitN(c.ObsTs, " ", 2)[0])
-		w.Count("rejected", fmt.Sprint(c.Rejected))
-		w.Count("token_kind", c.Tok.Kind)
-		if schemeTerm == "X509" && facts.verify && facts.rules && c.ObsTs == "Passed" && len(roots) > 0 {
-			// the positive countersignature branch is driven on the real code: the mini-TSA's chain is accepted by
-			// tspclient-go, crypto/x509 and notation-core-go's ValidateTimestampingCertChain
-			w.Count("positive_tsa_branch", fmt.Sprintf("passed with a token verified under the tsa stores (TSA chain of %d)", len(facts.chain)))
+		for _, f := range calls {
+			f()
 		}
 	}
 
-	generate(a, rng, runCase)
+	generate(a, rng, runCase, runSeq)
 	return w.Close()
 }
